@@ -130,3 +130,16 @@ Theorem C17_topk_sym : forall pa a pb b, cms_wf (t_sketch a) -> cms_wf (t_sketch
   (topk_equals pa a pb b = Ok true <-> topk_equals pb b pa a = Ok true).
 Proof. exact EqualsSym.topk_equals_sym. Qed.
 Print Assumptions C17_topk_sym.
+
+(* C17: evaluated: a well-formed sketch equals itself, differs from a copy with one cell changed,
+   both ways *)
+Example C17_equals_evaluated :
+  cms_wf (mkCms 2 2 5 [[1; 2]; [3; 4]]) /\ cms_wf (mkCms 2 2 5 [[1; 2]; [3; 5]]) /\
+  cms_equals_o (mkCms 2 2 5 [[1; 2]; [3; 4]]) (mkCms 2 2 9 [[1; 2]; [3; 4]]) = Ok true /\
+  cms_equals_o (mkCms 2 2 5 [[1; 2]; [3; 4]]) (mkCms 2 2 5 [[1; 2]; [3; 5]]) = Ok false /\
+  cms_equals_o (mkCms 2 2 5 [[1; 2]; [3; 5]]) (mkCms 2 2 5 [[1; 2]; [3; 4]]) = Ok false.
+Proof.
+  split; [unfold cms_wf, small64, two64; cbn; repeat split; try reflexivity; repeat constructor|].
+  split; [unfold cms_wf, small64, two64; cbn; repeat split; try reflexivity; repeat constructor|].
+  vm_compute. repeat split; reflexivity.
+Qed.
